@@ -200,8 +200,26 @@ def run_roots(ctx, A, bodies, rid, modular=()):
     return since
 
 
+def check_counter_growth(ctx, A, rid):
+    """side condition of the A3 bound on 64-bit counters of stateful objects (join.COUNTER_MAX): on the final object invariants
+    every interface method leaves each such leaf either small or equal to one leaf of the pre-state plus at most 2^16"""
+    ctx.rule(rid + "-COUNTER", "64-bit unsigned fields of stateful objects grow by at most 2^16 per method call (or are set to a value below "
+                               "2^32): with fewer than 2^40 calls per object (A3) they stay below 2^62 and cannot overflow")
+    for tname in sorted(A.invs):
+        ctx.count(rid + "-COUNTER")
+        bad = A.growth.get(tname, [])
+        ctx.oblig(not bad)
+        for fn, what in bad[:6]:
+            b = A.f.bodies.get(fn)
+            where = (b["span"]["file"], b["span"]["line"], fn) if b else ("", 0, fn)
+            ctx.violation(rid + "-COUNTER", "%s|%s" % (tname, fn), where,
+                          "%s: after %s a 64-bit field may have grown by more than 2^16 or in a non-additive way (%s): "
+                          "the counter bound assumed by the analysis does not cover it" % (tname, fn.split("::")[-1], "; ".join(what)))
+
+
 def triage(ctx, A, since, rid, facts, scope_filter=None):
     """turn the interpreter's obligation log into discharged / reviewed / violation"""
+    check_counter_growth(ctx, A, rid)
     obls = A.obligations(since)
     by_kind = {}
     for o in obls:
